@@ -11,7 +11,7 @@ CONSTANTS
   MaxFaults = 2
   Behaviours = {"ok", "evErr", "short", "undec", "e500", "r429_1", "r503_2", "r429_0", "r429_60", "timeout"}
   Coarse = TRUE
-  Loose = FALSE
+  Loose = TRUE
 INVARIANTS TypeOK OwnDestination ExactlyOneBatch OversizeCounted BodyWithinLimit CountWithinLimit AtMostTwice Timely StopFlushes GaugeExact Conservation
 VIEW View
 CHECK_DEADLOCK FALSE
